@@ -268,7 +268,10 @@ theorem pick_mu_lt {s : Sender} {off len : Nat} (hok : s.pickOk off len) (hm : l
       simp only [if_true] at hk
       have := (live_iff s).mp hl
       unfold Sender.needFin Sender.pick Sender.pickFin
-      rcases this.2 with h | h | h <;> simp_all
+      rcases this.2 with h | h | h
+      · simp_all
+      · simp_all
+      · cases hf : s.fin <;> simp [h, hf]
     simp [n1, n2]
   · have hk : (∀ k, k < len → (s.status (off + k)).pickable = true) := by
       obtain ⟨_, hk⟩ := hok; simp only [h0, if_false] at hk; exact hk.2.2.1
